@@ -158,6 +158,10 @@ func (r *Resolver) getContainerTypeName(g *Scope, t *parser.Type) (name string, 
 // The extra must be associated with g and from a const value that has
 // type parser.ConstType_ConstIdentifier.
 func (r *Resolver) getIDValue(g *Scope, extra *parser.ConstValueExtra) (v string, ok bool) {
+	if extra == nil {
+		// an identifier that the semantic pass left unbound (true/false where no boolean is expected)
+		return "", false
+	}
 	if extra.Index == -1 {
 		if extra.IsEnum {
 			enum, ok := g.ast.GetEnum(extra.Sel)
